@@ -301,7 +301,682 @@ Section MediatorProofs.
       + intros h Hin. destruct (in_dec Nat.eq_dec h r) as [Hr | Hr]; [apply Hin2; auto|].
         destruct Hin as [Hx | Hr']; [subst h | contradiction].
         destruct (Hout2 x Hr) as (Hs3 & Ho3). rewrite Hs3, Ho3. split; auto.
-      + intros h Hnin. assert (h <> x) by (intro; subst; apply Hnin; auto).
-        assert (~ In h r) by (intro; apply Hnin; auto).
-        destruct (Hout2 h H1) as (Hs3 & Ho3). destruct (Hoth h H0) as (Hs4 & Ho4). split; congruence.
+      + intros h Hnin. assert (Hhx : h <> x) by (intro; subst; apply Hnin; auto).
+        assert (Hhr : ~ In h r) by (intro; apply Hnin; auto).
+        destruct (Hout2 h Hhr) as (Hs3 & Ho3). destruct (Hoth h Hhx) as (Hs4 & Ho4). split; congruence.
   Qed.
+
+  (** *** Multi-process: the receive loop *)
+  Definition count_ets (stg : H -> stage) (l : list H) : nat :=
+    length (filter (fun p => is_ets (stg p)) l).
+
+  Lemma count_upd_notin : forall stg h v l, ~ In h l -> count_ets (upd stg h v) l = count_ets stg l.
+  Proof.
+    intros stg h v l. unfold count_ets. induction l as [|x r IH]; simpl; intros Hn; auto.
+    rewrite upd_other by (intro; subst; apply Hn; auto).
+    destruct (is_ets (stg x)); simpl; rewrite IH; auto.
+  Qed.
+
+  Lemma count_upd_nonets : forall stg h v l,
+      stg h <> ETS -> v <> ETS -> count_ets (upd stg h v) l = count_ets stg l.
+  Proof.
+    intros stg h v l Hs Hv. unfold count_ets. induction l as [|x r IH]; simpl; auto.
+    unfold upd at 1. destruct (Nat.eqb x h) eqn:E.
+    - apply Nat.eqb_eq in E. subst x.
+      destruct v; try congruence; destruct (stg h); try congruence; simpl; auto.
+    - destruct (is_ets (stg x)); simpl; rewrite IH; auto.
+  Qed.
+
+  Lemma count_upd_ets : forall stg h v l,
+      NoDup l -> In h l -> stg h = ETS -> v <> ETS -> S (count_ets (upd stg h v) l) = count_ets stg l.
+  Proof.
+    intros stg h v l Hnd. induction Hnd as [|x r Hx Hr IH]; simpl; intros Hin Hs Hv; [contradiction|].
+    unfold count_ets in *. simpl. unfold upd at 1. destruct (Nat.eqb x h) eqn:E.
+    - apply Nat.eqb_eq in E. subst x. rewrite Hs. simpl.
+      assert (Hv' : is_ets v = false) by (destruct v; auto; congruence). rewrite Hv'.
+      f_equal. apply (count_upd_notin stg h v r Hx).
+    - apply Nat.eqb_neq in E. destruct Hin as [Hin | Hin]; [congruence|].
+      destruct (is_ets (stg x)); simpl; rewrite <- IH; auto.
+  Qed.
+
+  Lemma count_all_ets : forall stg l, (forall x, In x l -> stg x = ETS) -> count_ets stg l = length l.
+  Proof.
+    intros stg l. unfold count_ets. induction l as [|x r IH]; simpl; intros Ha; auto.
+    rewrite (Ha x (or_introl eq_refl)). simpl. rewrite IH; auto.
+  Qed.
+
+  Lemma count_zero : forall stg l, count_ets stg l = 0 -> forall x, In x l -> stg x <> ETS.
+  Proof.
+    intros stg l. unfold count_ets. induction l as [|x r IH]; simpl; intros Hc y Hy; [contradiction|].
+    destruct (is_ets (stg x)) eqn:E; simpl in Hc; [discriminate|].
+    destruct Hy as [Hy | Hy]; [subst; intro Hc'; rewrite Hc' in E; discriminate | apply IH; auto].
+  Qed.
+
+  Lemma count_pos : forall stg l, 0 < count_ets stg l -> exists x, In x l /\ stg x = ETS.
+  Proof.
+    intros stg l. unfold count_ets. induction l as [|x r IH]; simpl; intros Hc; [lia|].
+    destruct (is_ets (stg x)) eqn:E.
+    - exists x. split; auto. destruct (stg x); simpl in E; try discriminate; auto.
+    - destruct (IH Hc) as (y & Hy & Hs). exists y. auto.
+  Qed.
+
+  Section Loop.
+    Variable hist0 : hist OS.
+    Variable pipes : list H.
+    Variable m0 : mstate.          (* mediator state when the receive loop is entered *)
+    Hypothesis pipes_nodup : NoDup pipes.
+    Hypothesis m0_het : forall h, In h pipes -> m_het OS m0 h = hist0.
+    Let n := length pipes.
+
+    Definition good (m : mstate) (h : H) : Prop :=
+      (m_stg OS m h = ETS /\ m_ost OS m h = None) \/
+      (m_stg OS m h = Susp /\ m_ost OS m h = None) \/
+      (m_stg OS m h = OSS /\ m_ost OS m h = None /\ has_args h = false) \/
+      (m_stg OS m h = Idle /\ has_args h = false /\ m_ost OS m h = Some (out_state h hist0 hist0)).
+
+    Record Linv (l : lstate) : Prop := {
+      li_hist : m_hist OS (l_m OS l) = hist0;
+      li_pend : forall e, In e (m_pend OS (l_m OS l)) <->
+                          In e (m_pend OS m0) \/
+                          (In (fst e) pipes /\ m_stg OS (l_m OS l) (fst e) <> ETS /\ snd e = ev_time (fst e) hist0);
+      li_frame : forall h, ~ In h pipes ->
+                           m_stg OS (l_m OS l) h = m_stg OS m0 h /\ m_ost OS (l_m OS l) h = m_ost OS m0 h;
+      li_het : forall h, m_het OS (l_m OS l) h = m_het OS m0 h;
+      li_good : forall h, In h pipes -> good (l_m OS l) h;
+      li_dq : forall q, In q (l_dq OS l) -> In q pipes /\ m_stg OS (l_m OS l) q = Susp /\ has_args q = false;
+      li_dqnd : NoDup (l_dq OS l);
+      li_cnt : l_rec OS l + count_ets (m_stg OS (l_m OS l)) pipes = n
+    }.
+
+    (** Linv only looks at these components (not at the log or the skip counter). *)
+    Definition core_eq (l l' : lstate) : Prop :=
+      m_hist OS (l_m OS l) = m_hist OS (l_m OS l') /\ m_pend OS (l_m OS l) = m_pend OS (l_m OS l') /\
+      m_stg OS (l_m OS l) = m_stg OS (l_m OS l') /\ m_het OS (l_m OS l) = m_het OS (l_m OS l') /\
+      m_ost OS (l_m OS l) = m_ost OS (l_m OS l') /\ l_dq OS l = l_dq OS l' /\ l_rec OS l = l_rec OS l'.
+
+    Lemma Linv_ext : forall l l', core_eq l l' -> Linv l -> Linv l'.
+    Proof.
+      intros l l' (E1 & E2 & E3 & E4 & E5 & E6 & E7) [I1 I2 I3 I4 I5 I6 I7 I8].
+      constructor; unfold good in *; rewrite <- ?E1, <- ?E2, <- ?E3, <- ?E4, <- ?E5, <- ?E6, <- ?E7; auto.
+    Qed.
+
+    Lemma start_ahead_inv : forall l, Linv l -> Linv (start_ahead l).
+    Proof.
+      intros l I. unfold MultiMediator.start_ahead. destruct (l_dq OS l) as [|q dq'] eqn:Edq; auto.
+      destruct I as [I1 I2 I3 I4 I5 I6 I7 I8]. rewrite Edq in *.
+      destruct (I6 q (or_introl eq_refl)) as (Hqp & Hqs & Hqa).
+      inversion I7 as [|? ? Hqn Hnd']; subst.
+      constructor; simpl; auto.
+      - intros e. rewrite I2. unfold upd. destruct (Nat.eqb (fst e) q) eqn:E.
+        + apply Nat.eqb_eq in E. rewrite E, Hqs.
+          assert (Susp <> ETS) by discriminate. assert (OSS <> ETS) by discriminate. tauto.
+        + tauto.
+      - intros h Hh. rewrite upd_other by (intro; subst; contradiction). auto.
+      - intros h Hh. unfold good; simpl. unfold upd. destruct (Nat.eqb h q) eqn:E.
+        + apply Nat.eqb_eq in E. subst h. right; right; left.
+          destruct (I5 q Hqp) as [(Hs & _) | [(_ & Ho) | [(Hs & _) | (Hs & _)]]]; try congruence. auto.
+        + apply I5; auto.
+      - intros x Hx. destruct (I6 x (or_intror Hx)) as (Hxp & Hxs & Hxa).
+        rewrite upd_other by (intro; subst; contradiction). auto.
+      - rewrite count_upd_nonets; auto; congruence.
+    Qed.
+
+    Lemma nodup_snoc : forall (l : list H) x, NoDup l -> ~ In x l -> NoDup (l ++ [x]).
+    Proof.
+      induction l as [|y r IH]; simpl; intros x Hnd Hx.
+      - constructor; auto.
+      - inversion Hnd; subst. constructor.
+        + rewrite in_app_iff. simpl. intuition.
+        + apply IH; auto.
+    Qed.
+
+    (** An event time arrives on pipe p (stage event_time_started). *)
+    Lemma recv_time_inv : forall l p,
+        Linv l -> In p pipes -> m_stg OS (l_m OS l) p = ETS ->
+        Linv (mkL OS (push OS (set_stg OS (l_m OS l) p Susp) p (ev_time p hist0))
+                  (if has_args p then l_dq OS l else l_dq OS l ++ [p]) (S (l_rec OS l))).
+    Proof.
+      intros l p [I1 I2 I3 I4 I5 I6 I7 I8] Hp Hs.
+      assert (Hdqp : ~ In p (l_dq OS l)).
+      { intro Hc. destruct (I6 p Hc) as (_ & Hc' & _). congruence. }
+      constructor; simpl; auto.
+      - intros e. rewrite in_app_iff, I2. simpl. split.
+        + intros [[Ha | (Hb1 & Hb2 & Hb3)] | [He | []]].
+          * auto.
+          * right. split; auto. split; auto. rewrite upd_other; auto. intro Hc; rewrite Hc in Hb2; contradiction.
+          * subst e. simpl. right. rewrite upd_same. repeat split; auto. discriminate.
+        + intros [Ha | (Hb1 & Hb2 & Hb3)]; [auto|].
+          destruct (Nat.eq_dec (fst e) p) as [Hep | Hep].
+          * right. left. destruct e as [eh et]. simpl in *. subst. reflexivity.
+          * left. right. rewrite upd_other in Hb2; auto.
+      - intros h Hh. rewrite upd_other by (intro; subst; contradiction). auto.
+      - intros h Hh. unfold good; simpl. unfold upd. destruct (Nat.eqb h p) eqn:E.
+        + apply Nat.eqb_eq in E. subst h. right; left. split; auto.
+          destruct (I5 p Hp) as [(_ & Ho) | [(Hc & _) | [(Hc & _) | (Hc & _)]]]; congruence.
+        + apply I5; auto.
+      - intros q Hq.
+        assert (Hcase : In q (l_dq OS l) \/ (q = p /\ has_args p = false)).
+        { destruct (has_args p) eqn:Ea; auto. apply in_app_iff in Hq. simpl in Hq. intuition. }
+        destruct Hcase as [Hq' | (Hq' & Ha)].
+        + destruct (I6 q Hq') as (Hq1 & Hq2 & Hq3). rewrite upd_other by (intro; subst; contradiction). auto.
+        + subst q. rewrite upd_same. auto.
+      - destruct (has_args p); auto. apply nodup_snoc; auto.
+      - assert (Hne : Susp <> ETS) by discriminate.
+        pose proof (count_upd_ets (m_stg OS (l_m OS l)) p Susp pipes pipes_nodup Hp Hs Hne) as Hc. lia.
+    Qed.
+
+    (** A pre-computed out-state arrives on pipe p (stage out_state_started). *)
+    Lemma recv_out_inv : forall l p,
+        Linv l -> In p pipes -> m_stg OS (l_m OS l) p = OSS ->
+        Linv (mkL OS (set_ost OS (set_stg OS (l_m OS l) p Idle) p (out_of p (m_het OS (l_m OS l) p) hist0))
+                  (l_dq OS l) (l_rec OS l)).
+    Proof.
+      intros l p [I1 I2 I3 I4 I5 I6 I7 I8] Hp Hs.
+      assert (Hg : m_ost OS (l_m OS l) p = None /\ has_args p = false).
+      { destruct (I5 p Hp) as [(Hc & _) | [(Hc & _) | [(_ & Ho & Ha) | (Hc & _)]]]; try congruence. auto. }
+      destruct Hg as (Ho & Ha).
+      constructor; simpl; auto.
+      - intros e. rewrite I2. unfold upd. destruct (Nat.eqb (fst e) p) eqn:E.
+        + apply Nat.eqb_eq in E. rewrite E, Hs.
+          assert (Idle <> ETS) by discriminate. assert (OSS <> ETS) by discriminate. tauto.
+        + tauto.
+      - intros h Hh. rewrite !upd_other by (intro; subst; contradiction). auto.
+      - intros h Hh. unfold good; simpl. unfold upd. destruct (Nat.eqb h p) eqn:E.
+        + apply Nat.eqb_eq in E. subst h. right; right; right. repeat split; auto.
+          unfold MultiMediator.out_of. rewrite Ha, I4, (m0_het p Hp). reflexivity.
+        + apply I5; auto.
+      - intros q Hq. destruct (I6 q Hq) as (Hq1 & Hq2 & Hq3).
+        rewrite upd_other by (intro; subst; congruence). auto.
+      - rewrite count_upd_nonets; auto; congruence.
+    Qed.
+
+    Lemma process_one_inv : forall l p, Linv l -> Linv (process_one hist0 pipes n l p).
+    Proof.
+      intros l p I. unfold MultiMediator.process_one.
+      destruct (memb p pipes) eqn:Hm; simpl.
+      2:{ eapply Linv_ext; [|exact I]. unfold core_eq; simpl; repeat split; reflexivity. }
+      apply memb_In in Hm.
+      destruct (m_stg OS (l_m OS l) p) eqn:Hs.
+      - eapply Linv_ext; [|exact I]. unfold core_eq; simpl; repeat split; reflexivity.
+      - pose proof (recv_time_inv l p I Hm Hs) as I1.
+        destruct ((0 <? n - S (l_rec OS l)) && (n - S (l_rec OS l) <? ncores - 1)).
+        + apply start_ahead_inv in I1. eapply Linv_ext; [|exact I1].
+          unfold core_eq, MultiMediator.start_ahead; simpl.
+          destruct (if has_args p then l_dq OS l else l_dq OS l ++ [p]); simpl; repeat split; reflexivity.
+        + eapply Linv_ext; [|exact I1]. unfold core_eq; simpl; repeat split; reflexivity.
+      - eapply Linv_ext; [|exact I]. unfold core_eq; simpl; repeat split; reflexivity.
+      - pose proof (recv_out_inv l p I Hm Hs) as I1.
+        apply start_ahead_inv in I1. eapply Linv_ext; [|exact I1].
+        unfold core_eq, MultiMediator.start_ahead; simpl.
+        destruct (l_dq OS l) as [|q dq'] eqn:Edq; simpl; repeat split; try reflexivity.
+    Qed.
+
+    Lemma process_batch_inv : forall b l, Linv l -> Linv (process_batch hist0 pipes n b l).
+    Proof.
+      unfold MultiMediator.process_batch.
+      induction b as [|p r IH]; intros l I; simpl; auto. apply IH. apply process_one_inv; auto.
+    Qed.
+
+    (** The receive loop never moves a pipe (back) to event_time_started. *)
+    Lemma start_ahead_no_new_ets : forall l x,
+        m_stg OS (l_m OS (start_ahead l)) x = ETS -> m_stg OS (l_m OS l) x = ETS.
+    Proof.
+      intros l x. unfold MultiMediator.start_ahead. destruct (l_dq OS l); simpl; auto.
+      unfold upd. destruct (Nat.eqb x h); [discriminate | auto].
+    Qed.
+
+    Lemma process_one_no_new_ets : forall l p x,
+        m_stg OS (l_m OS (process_one hist0 pipes n l p)) x = ETS -> m_stg OS (l_m OS l) x = ETS.
+    Proof.
+      intros l p x. unfold MultiMediator.process_one.
+      destruct (memb p pipes); simpl; auto.
+      destruct (m_stg OS (l_m OS l) p) eqn:Hs; simpl; auto.
+      - destruct ((0 <? n - S (l_rec OS l)) && (n - S (l_rec OS l) <? ncores - 1)); simpl.
+        + intros Hx. apply start_ahead_no_new_ets in Hx. simpl in Hx.
+          unfold upd in Hx. destruct (Nat.eqb x p); [discriminate | auto].
+        + unfold upd. destruct (Nat.eqb x p); [discriminate | auto].
+      - intros Hx. apply start_ahead_no_new_ets in Hx. simpl in Hx.
+        unfold upd in Hx. destruct (Nat.eqb x p); [discriminate | auto].
+    Qed.
+
+    Lemma process_batch_no_new_ets : forall b l x,
+        m_stg OS (l_m OS (process_batch hist0 pipes n b l)) x = ETS -> m_stg OS (l_m OS l) x = ETS.
+    Proof.
+      unfold MultiMediator.process_batch.
+      induction b as [|p r IH]; intros l x; simpl; auto.
+      intros Hx. apply IH in Hx. apply process_one_no_new_ets in Hx. auto.
+    Qed.
+
+    Lemma process_one_clears : forall l p,
+        In p pipes -> m_stg OS (l_m OS (process_one hist0 pipes n l p)) p <> ETS.
+    Proof.
+      intros l p Hp. destruct (m_stg OS (l_m OS l) p) eqn:Hs;
+        try (intro Hc; apply process_one_no_new_ets in Hc; congruence).
+      unfold MultiMediator.process_one. apply memb_In in Hp. rewrite Hp, Hs. simpl.
+      destruct ((0 <? n - S (l_rec OS l)) && (n - S (l_rec OS l) <? ncores - 1)); simpl.
+      - intro Hc. apply start_ahead_no_new_ets in Hc. simpl in Hc. rewrite upd_same in Hc. discriminate.
+      - rewrite upd_same. discriminate.
+    Qed.
+
+    Lemma process_batch_clears : forall b l p,
+        (forall x, In x b -> In x pipes) -> In p b ->
+        m_stg OS (l_m OS (process_batch hist0 pipes n b l)) p <> ETS.
+    Proof.
+      induction b as [|y r IH]; intros l p Hsub Hp; [contradiction|].
+      change (process_batch hist0 pipes n (y :: r) l) with (process_batch hist0 pipes n r (process_one hist0 pipes n l y)).
+      destruct (in_dec Nat.eq_dec p r) as [Hr | Hr].
+      - apply IH; auto. intros x Hx. apply Hsub. right; auto.
+      - destruct Hp as [Hp | Hp]; [subst y | contradiction].
+        intro Hc. apply process_batch_no_new_ets in Hc. revert Hc. apply process_one_clears. apply Hsub. left; auto.
+    Qed.
+
+    (** When the loop is left, every event time has been received — for every schedule. *)
+    Lemma wait_loop_inv : forall bs l,
+        Linv l ->
+        Linv (wait_loop hist0 pipes n bs l) /\
+        (forall x, In x pipes -> m_stg OS (l_m OS (wait_loop hist0 pipes n bs l)) x <> ETS).
+    Proof.
+      induction bs as [|b bs IH]; intros l I; simpl.
+      - destruct (n <=? l_rec OS l) eqn:E.
+        + split; auto. apply Nat.leb_le in E. apply count_zero.
+          pose proof (li_cnt l I). lia.
+        + split; [apply process_batch_inv; auto|].
+          intros x Hx.
+          destruct (m_stg OS (l_m OS l) x) eqn:Hs;
+            try (intro Hc; apply process_batch_no_new_ets in Hc; congruence).
+          apply process_batch_clears.
+          * intros y Hy. unfold ets_pipes in Hy. apply filter_In in Hy. tauto.
+          * unfold ets_pipes. apply filter_In. split; auto. rewrite Hs. reflexivity.
+      - destruct (n <=? l_rec OS l) eqn:E.
+        + split; auto. apply Nat.leb_le in E. apply count_zero.
+          pose proof (li_cnt l I). lia.
+        + apply IH. apply process_batch_inv; auto.
+    Qed.
+
+    (** While the loop is still waiting, some pipe has an outstanding event-time request
+        (so connection.wait returns, given that workers answer — Level B). *)
+    Lemma wait_has_outstanding_request : forall l,
+        Linv l -> l_rec OS l < n -> exists p, In p pipes /\ m_stg OS (l_m OS l) p = ETS.
+    Proof.
+      intros l I Hlt. apply count_pos. pose proof (li_cnt l I). lia.
+    Qed.
+  End Loop.
+
+  (** *** Simulation between the two mediators *)
+  Lemma sp_leg_wf_spec : forall s,
+      sp_leg_wf s = true ->
+      let hist0 := s_hist OS s in
+      let run := to_run hist0 in
+      let s1 := fold_left (s_request hist0) run s in
+      NoDup run /\ (forall h, In h run -> ~ In h (map fst (s_pend OS s))) /\
+      exists h t, sched_min (s_pend OS s1) = Some (h, t) /\
+                  (forall e, In e (s_pend OS s1) -> e = (h, t) \/ (t < snd e)%Z) /\
+                  In h (trash_of (mkCommit h t (out_of h (s_het OS s1 h) hist0) :: hist0)).
+  Proof.
+    intros s Hwf. unfold MultiMediator.sp_leg_wf in Hwf.
+    apply andb_true_iff in Hwf. destruct Hwf as (Hwf & Hmin).
+    apply andb_true_iff in Hwf. destruct Hwf as (Hnd & Hdisj).
+    simpl. split; [apply nodupb_NoDup; auto|]. split.
+    - intros h Hh. rewrite forallb_forall in Hdisj. specialize (Hdisj h Hh).
+      apply negb_true_iff, memb_false in Hdisj. auto.
+    - destruct (sched_min (s_pend OS (fold_left (s_request (s_hist OS s)) (to_run (s_hist OS s)) s)))
+        as [[h t]|] eqn:E; [|discriminate].
+      exists h, t. split; auto.
+      apply andb_true_iff in Hmin. destruct Hmin as (Hall & Htr). split.
+      + intros [eh et] He. rewrite forallb_forall in Hall. specialize (Hall _ He). simpl in *.
+        apply orb_true_iff in Hall. destruct Hall as [Hall | Hall].
+        * apply andb_true_iff in Hall. destruct Hall as (H1 & H2).
+          apply Nat.eqb_eq in H1. apply Z.eqb_eq in H2. subst. auto.
+        * apply Z.ltb_lt in Hall. auto.
+      + apply memb_In. auto.
+  Qed.
+
+  Definition pend_ok (m : mstate) (h : H) : Prop :=
+    (m_stg OS m h = Susp /\ m_ost OS m h = None) \/
+    (m_stg OS m h = OSS /\ m_ost OS m h = None /\ has_args h = false) \/
+    (m_stg OS m h = Idle /\ has_args h = false /\
+     m_ost OS m h = Some (out_state h (m_het OS m h) (m_het OS m h))).
+
+  (** The relation that holds between the two mediators at every leg boundary, whatever the schedule. *)
+  Record R (m : mstate) (s : sstate) : Prop := {
+    r_hist : m_hist OS m = s_hist OS s;
+    r_pend : forall e, In e (m_pend OS m) <-> In e (s_pend OS s);
+    r_het : forall h, m_het OS m h = s_het OS s h;
+    r_idle : forall h, ~ In h (map fst (s_pend OS s)) -> m_stg OS m h = Idle /\ m_ost OS m h = None;
+    r_pending : forall h, In h (map fst (s_pend OS s)) -> pend_ok m h
+  }.
+
+  Lemma R_init : R (m_init OS) (s_init OS).
+  Proof. constructor; simpl; intuition. Qed.
+
+  Lemma map_fst_mk : forall hist0 (run : list H), map fst (map (mk hist0) run) = run.
+  Proof. intros hist0 run. induction run; simpl; congruence. Qed.
+
+  Lemma R_no_ets : forall m s, R m s -> forall x, m_stg OS m x <> ETS.
+  Proof.
+    intros m s HR x. destruct (in_dec Nat.eq_dec x (map fst (s_pend OS s))) as [Hi | Hi].
+    - destruct (r_pending m s HR x Hi) as [(Hs & _) | [(Hs & _) | (Hs & _)]]; congruence.
+    - destruct (r_idle m s HR x Hi) as (Hs & _). congruence.
+  Qed.
+
+  (** Requests + receive loop, for an arbitrary list of batches. *)
+  Lemma requests_sim : forall m s bs,
+      R m s ->
+      let hist0 := s_hist OS s in
+      let run := to_run hist0 in
+      NoDup run -> (forall h, In h run -> ~ In h (map fst (s_pend OS s))) ->
+      exists m1, fold_left (m_start hist0) run (inl m) = inl m1 /\
+                 R (l_m OS (wait_loop hist0 run (length run) bs (mkL OS m1 [] 0)))
+                   (fold_left (s_request hist0) run s).
+  Proof.
+    intros m s bs HR hist0 run Hnd Hdisj.
+    destruct (m_start_fold hist0 run m Hnd) as (m1 & Hf & Hh1 & Hp1 & Ho1 & Hs1 & Ht1).
+    { intros h Hh. apply (r_idle m s HR). auto. }
+    exists m1. split; auto.
+    assert (Hhet0 : forall h, In h run -> m_het OS m1 h = hist0).
+    { intros h Hh. rewrite Ht1. apply memb_In in Hh. rewrite Hh. reflexivity. }
+    assert (I0 : Linv hist0 run m1 (mkL OS m1 [] 0)).
+    { constructor; simpl; auto.
+      - rewrite Hh1. apply (r_hist m s HR).
+      - intros e. split; auto. intros [Ha | (Hb1 & Hb2 & _)]; auto.
+        exfalso. apply Hb2. rewrite Hs1. apply memb_In in Hb1. rewrite Hb1. reflexivity.
+      - intros h Hh. left. split.
+        + rewrite Hs1. apply memb_In in Hh. rewrite Hh. reflexivity.
+        + rewrite Ho1. apply (r_idle m s HR). auto.
+      - intros q [].
+      - constructor.
+      - apply count_all_ets. intros x Hx. rewrite Hs1. apply memb_In in Hx. rewrite Hx. reflexivity. }
+    destruct (wait_loop_inv hist0 run m1 Hnd Hhet0 bs _ I0) as (I & Hnoets).
+    set (l' := wait_loop hist0 run (length run) bs (mkL OS m1 [] 0)) in *.
+    destruct (s_request_fold hist0 run s) as (Sh & Sp & St).
+    destruct I as [I1 I2 I3 I4 I5 I6 I7 I8].
+    constructor.
+    - rewrite I1, Sh. reflexivity.
+    - intros e. rewrite I2, Sp, in_app_iff, Hp1, (r_pend m s HR). split.
+      + intros [Ha | (Hb1 & Hb2 & Hb3)]; auto. right. apply in_map_iff. exists (fst e).
+        split; auto. destruct e; simpl in *; congruence.
+      + intros [Ha | Hb]; auto. right. apply in_map_iff in Hb. destruct Hb as (h & He & Hh). subst e. simpl.
+        repeat split; auto.
+    - intros h. rewrite I4, Ht1, St, (r_het m s HR). reflexivity.
+    - intros h Hh. rewrite Sp, map_app, map_fst_mk, in_app_iff in Hh.
+      assert (Hr : ~ In h run) by tauto.
+      destruct (I3 h Hr) as (E1 & E2). rewrite E1, E2, Hs1, Ho1.
+      apply memb_false in Hr. rewrite Hr. apply (r_idle m s HR). tauto.
+    - intros h Hh. rewrite Sp, map_app, map_fst_mk, in_app_iff in Hh.
+      destruct (in_dec Nat.eq_dec h run) as [Hr | Hr].
+      + unfold pend_ok. rewrite I4, (Hhet0 h Hr).
+        destruct (I5 h Hr) as [(Hc & _) | [G | [G | G]]]; [exfalso; apply (Hnoets h Hr); auto | | |]; tauto.
+      + assert (Hps : In h (map fst (s_pend OS s))) by tauto.
+        destruct (I3 h Hr) as (E1 & E2). unfold pend_ok. rewrite E1, E2, I4, Hs1, Ho1, Ht1.
+        apply memb_false in Hr. rewrite Hr. apply (r_pending m s HR). auto.
+  Qed.
+
+  (** get_succeeding_event .. end of the trash loop. *)
+  Lemma finish_sim : forall m2 s1 h t,
+      R m2 s1 ->
+      sched_min (s_pend OS s1) = Some (h, t) ->
+      (forall e, In e (s_pend OS s1) -> e = (h, t) \/ (t < snd e)%Z) ->
+      let os := out_of h (s_het OS s1 h) (s_hist OS s1) in
+      let hist1 := mkCommit h t os :: s_hist OS s1 in
+      In h (trash_of hist1) ->
+      exists m', finish_leg m2 = inl m' /\
+                 R m' (fold_left s_trash_one (trash_of hist1)
+                                 (mkS OS hist1 (s_pend OS s1) (s_het OS s1)
+                                      (ECommit OS h t os :: EPick OS h :: s_log OS s1))).
+  Proof.
+    intros m2 s1 h t HR Hmin Huniq os hist1 Htr.
+    assert (Hin : In (h, t) (s_pend OS s1)) by (apply sched_min_in; auto).
+    assert (Hmin2 : sched_min (m_pend OS m2) = Some (h, t)).
+    { apply sched_min_unique.
+      - apply (r_pend m2 s1 HR). auto.
+      - intros e He. apply Huniq. apply (r_pend m2 s1 HR). auto. }
+    assert (Hhp : In h (map fst (s_pend OS s1))) by (apply in_map_iff; exists (h, t); auto).
+    assert (Hos : os = out_of h (m_het OS m2 h) (m_hist OS m2)).
+    { unfold os. rewrite (r_het m2 s1 HR), (r_hist m2 s1 HR). reflexivity. }
+    (* state after the out-state of h is in _out_states *)
+    assert (Hmid : exists m3,
+               finish_leg m2 = inl (fold_left m_trash_one (trash_of hist1) m3) /\
+               m_hist OS m3 = hist1 /\ m_pend OS m3 = m_pend OS m2 /\ m_het OS m3 = m_het OS m2 /\
+               m_stg OS m3 h = Idle /\
+               (forall x, x <> h -> m_stg OS m3 x = m_stg OS m2 x /\ m_ost OS m3 x = m_ost OS m2 x)).
+    { unfold MultiMediator.finish_leg. rewrite Hmin2. simpl.
+      destruct (r_pending m2 s1 HR h Hhp) as [(Hs & Ho) | [(Hs & Ho & Ha) | (Hs & Ha & Ho)]].
+      - repeat (rewrite ?Hs, ?upd_same; simpl).
+        rewrite <- Hos. rewrite (r_hist m2 s1 HR). fold hist1.
+        eexists. split; [reflexivity|]. simpl.
+        split; [reflexivity|]. split; [reflexivity|]. split; [reflexivity|].
+        split; [rewrite upd_same; reflexivity|].
+        intros x Hx. rewrite !upd_other by auto. auto.
+      - repeat (rewrite ?Hs, ?upd_same; simpl).
+        rewrite <- Hos. rewrite (r_hist m2 s1 HR). fold hist1.
+        eexists. split; [reflexivity|]. simpl.
+        split; [reflexivity|]. split; [reflexivity|]. split; [reflexivity|].
+        split; [rewrite upd_same; reflexivity|].
+        intros x Hx. rewrite !upd_other by auto. auto.
+      - repeat (rewrite ?Hs, ?Ho; simpl).
+        assert (Ho' : out_state h (m_het OS m2 h) (m_het OS m2 h) = os).
+        { rewrite Hos. unfold MultiMediator.out_of. rewrite Ha. reflexivity. }
+        rewrite Ho'. rewrite (r_hist m2 s1 HR). fold hist1.
+        eexists. split; [reflexivity|]. simpl. repeat split; auto. }
+    destruct Hmid as (m3 & Hfin & H3h & H3p & H3t & H3s & H3o).
+    exists (fold_left m_trash_one (trash_of hist1) m3). split; auto.
+    assert (Hne3 : forall x, m_stg OS m3 x <> ETS).
+    { intros x. destruct (Nat.eq_dec x h) as [-> | Hx]; [congruence|].
+      destruct (H3o x Hx) as (E & _). rewrite E. apply (R_no_ets m2 s1 HR). }
+    destruct (m_trash_fold (trash_of hist1) m3 Hne3) as (Th & Tt & Tp & Tin & Tout).
+    match goal with |- R _ (fold_left _ _ ?s2) =>
+      destruct (s_trash_fold (trash_of hist1) s2) as (Sh & St & Sp) end.
+    simpl in Sh, St, Sp.
+    constructor.
+    - rewrite Th, Sh. auto.
+    - intros e. rewrite Tp, Sp, H3p, (r_pend m2 s1 HR). tauto.
+    - intros x. rewrite Tt, St, H3t. apply (r_het m2 s1 HR).
+    - intros x Hx. destruct (in_dec Nat.eq_dec x (trash_of hist1)) as [Hi | Hi]; [apply Tin; auto|].
+      assert (Hx1 : ~ In x (map fst (s_pend OS s1))).
+      { intro Hc. apply in_map_iff in Hc. destruct Hc as (e & He1 & He2). apply Hx.
+        apply in_map_iff. exists e. split; auto. apply Sp. subst x. auto. }
+      assert (Hxh : x <> h) by (intro; subst; contradiction).
+      destruct (Tout x Hi) as (E1 & E2). destruct (H3o x Hxh) as (E3 & E4).
+      rewrite E1, E2, E3, E4. apply (r_idle m2 s1 HR). auto.
+    - intros x Hx. apply in_map_iff in Hx. destruct Hx as (e & He1 & He2). apply Sp in He2.
+      destruct He2 as (He2 & He3). subst x.
+      assert (Hxh : fst e <> h) by (intro Hc; rewrite Hc in He3; contradiction).
+      destruct (Tout (fst e) He3) as (E1 & E2). destruct (H3o (fst e) Hxh) as (E3 & E4).
+      unfold pend_ok. rewrite E1, E2, E3, E4, Tt, H3t.
+      apply (r_pending m2 s1 HR). apply in_map_iff. exists e. auto.
+  Qed.
+
+  Lemma leg_sim : forall m s bs,
+      R m s -> sp_leg_wf s = true ->
+      exists m' s', mp_leg bs m = inl m' /\ sp_leg s = inl s' /\ R m' s'.
+  Proof.
+    intros m s bs HR Hwf.
+    destruct (sp_leg_wf_spec s Hwf) as (Hnd & Hdisj & h & t & Hmin & Huniq & Htr).
+    destruct (requests_sim m s bs HR Hnd Hdisj) as (m1 & Hstart & HR1).
+    destruct (s_request_fold (s_hist OS s) (to_run (s_hist OS s)) s) as (Sh & _ & _).
+    set (s1 := fold_left (s_request (s_hist OS s)) (to_run (s_hist OS s)) s) in *.
+    rewrite <- Sh in Htr.
+    destruct (finish_sim _ s1 h t HR1 Hmin Huniq Htr) as (m' & Hfin & HR').
+    eexists m', _. split; [|split; [|exact HR']].
+    - unfold MultiMediator.mp_leg. rewrite (r_hist m s HR). rewrite Hstart. exact Hfin.
+    - unfold MultiMediator.sp_leg. fold s1. rewrite Hmin. rewrite Sh. reflexivity.
+  Qed.
+
+  Theorem run_sim : forall n sched m s,
+      R m s -> sp_run_wf n s = true ->
+      exists m' s', mp_run n sched m = inl m' /\ sp_run n s = inl s' /\ R m' s'.
+  Proof.
+    induction n as [|n IH]; intros sched m s HR Hwf; simpl in *.
+    - exists m, s. auto.
+    - apply andb_true_iff in Hwf. destruct Hwf as (Hwf1 & Hwf2).
+      destruct (leg_sim m s (hd [] sched) HR Hwf1) as (m1 & s1 & Hm & Hs & HR1).
+      rewrite Hm. rewrite Hs in *. apply IH; auto.
+  Qed.
+
+  (** **** Main results (stated from the initial states) *)
+  Theorem commit_equivalence_thm : forall n sched,
+      sp_run_wf n (s_init OS) = true ->
+      exists m' s', mp_run n sched (m_init OS) = inl m' /\ sp_run n (s_init OS) = inl s' /\
+                    m_hist OS m' = s_hist OS s'.
+  Proof.
+    intros n sched Hwf. destruct (run_sim n sched _ _ R_init Hwf) as (m' & s' & Hm & Hs & HR).
+    exists m', s'. repeat split; auto. apply (r_hist m' s' HR).
+  Qed.
+
+  Theorem no_error_thm : forall n sched,
+      sp_run_wf n (s_init OS) = true -> exists m', mp_run n sched (m_init OS) = inl m'.
+  Proof.
+    intros n sched Hwf. destruct (run_sim n sched _ _ R_init Hwf) as (m' & s' & Hm & _). eauto.
+  Qed.
+
+  (** An out-state sits in _out_states at a leg boundary only for a handler whose event is still pending in
+      the scheduler (not trashed since its request), which has no out-state arguments, and it is the
+      out-state of the handler's latest in-state; the stage of that handler is idle. *)
+  Theorem precomputed_thm : forall n sched m',
+      sp_run_wf n (s_init OS) = true -> mp_run n sched (m_init OS) = inl m' ->
+      forall h os, m_ost OS m' h = Some os ->
+                   In h (map fst (m_pend OS m')) /\ has_args h = false /\ m_stg OS m' h = Idle /\
+                   os = out_state h (m_het OS m' h) (m_het OS m' h).
+  Proof.
+    intros n sched m' Hwf Hm h os Ho.
+    destruct (run_sim n sched _ _ R_init Hwf) as (m'' & s' & Hm' & _ & HR).
+    rewrite Hm in Hm'. inversion Hm'; subst m''. clear Hm'.
+    destruct (in_dec Nat.eq_dec h (map fst (s_pend OS s'))) as [Hi | Hi].
+    - split.
+      + apply in_map_iff in Hi. destruct Hi as (e & He1 & He2). apply in_map_iff. exists e. split; auto.
+        apply (r_pend m' s' HR). auto.
+      + destruct (r_pending m' s' HR h Hi) as [(_ & Hc) | [(_ & Hc & _) | (Hs & Ha & Hv)]]; try congruence.
+        repeat split; auto. congruence.
+    - destruct (r_idle m' s' HR h Hi) as (_ & Hc). congruence.
+  Qed.
+
+  (** At every leg boundary no handler is in stage event_time_started, and a handler without pending event
+      (never started, or trashed — in particular the one that just committed) is idle with no stored
+      out-state. *)
+  Theorem stages_at_leg_boundary_thm : forall n sched m',
+      sp_run_wf n (s_init OS) = true -> mp_run n sched (m_init OS) = inl m' ->
+      forall h, m_stg OS m' h <> ETS /\
+                (~ In h (map fst (m_pend OS m')) -> m_stg OS m' h = Idle /\ m_ost OS m' h = None).
+  Proof.
+    intros n sched m' Hwf Hm h.
+    destruct (run_sim n sched _ _ R_init Hwf) as (m'' & s' & Hm' & _ & HR).
+    rewrite Hm in Hm'. inversion Hm'; subst m''. clear Hm'.
+    split; [apply (R_no_ets m' s' HR)|].
+    intros Hn. apply (r_idle m' s' HR). intro Hc. apply Hn.
+    apply in_map_iff in Hc. destruct Hc as (e & He1 & He2). apply in_map_iff. exists e. split; auto.
+    apply (r_pend m' s' HR). auto.
+  Qed.
+
+  (** Samples: same commits, same writes. *)
+  Theorem writes_equal_thm : forall (writes_output : H -> bool) n sched,
+      sp_run_wf n (s_init OS) = true ->
+      exists m' s', mp_run n sched (m_init OS) = inl m' /\ sp_run n (s_init OS) = inl s' /\
+                    writes_of OS writes_output (m_hist OS m') = writes_of OS writes_output (s_hist OS s').
+  Proof.
+    intros w n sched Hwf. destruct (commit_equivalence_thm n sched Hwf) as (m' & s' & Hm & Hs & He).
+    exists m', s'. repeat split; auto. rewrite He. reflexivity.
+  Qed.
+
+  (** Receive-loop progress for an arbitrary prefix of arrivals: while an event time is missing, some pipe of
+      this leg is in stage event_time_started (its worker answers by Level B), so connection.wait returns. *)
+  Theorem wait_never_starves_thm : forall m s choices,
+      R m s -> sp_leg_wf s = true ->
+      let hist0 := m_hist OS m in
+      let pipes := to_run hist0 in
+      exists m1, fold_left (m_start hist0) pipes (inl m) = inl m1 /\
+                 let l := process_batch hist0 pipes (length pipes) choices (mkL OS m1 [] 0) in
+                 l_rec OS l < length pipes -> exists p, In p pipes /\ m_stg OS (l_m OS l) p = ETS.
+  Proof.
+    intros m s choices HR Hwf hist0 pipes.
+    destruct (sp_leg_wf_spec s Hwf) as (Hnd & Hdisj & _).
+    subst pipes hist0. rewrite (r_hist m s HR).
+    destruct (m_start_fold (s_hist OS s) (to_run (s_hist OS s)) m Hnd) as (m1 & Hf & Hh1 & Hp1 & Ho1 & Hs1 & Ht1).
+    { intros h Hh. apply (r_idle m s HR). auto. }
+    exists m1. split; [exact Hf|]. cbv zeta.
+    assert (Hhet0 : forall h, In h (to_run (s_hist OS s)) -> m_het OS m1 h = s_hist OS s).
+    { intros h Hh. rewrite Ht1. apply memb_In in Hh. rewrite Hh. reflexivity. }
+    apply (wait_has_outstanding_request (s_hist OS s) (to_run (s_hist OS s)) m1).
+    apply process_batch_inv; auto.
+    constructor; simpl; auto.
+    - rewrite Hh1. apply (r_hist m s HR).
+    - intros e. split; auto. intros [Ha | (Hb1 & Hb2 & _)]; auto.
+      exfalso. apply Hb2. rewrite Hs1. apply memb_In in Hb1. rewrite Hb1. reflexivity.
+    - intros h Hh. left. split.
+      + rewrite Hs1. apply memb_In in Hh. rewrite Hh. reflexivity.
+      + rewrite Ho1. apply (r_idle m s HR). auto.
+    - intros q [].
+    - constructor.
+    - apply count_all_ets. intros x Hx. rewrite Hs1. apply memb_In in Hx. rewrite Hx. reflexivity.
+  Qed.
+End MediatorProofs.
+
+(* ------------------------------------------------------------------------------------------- *)
+(** ** Level B, packaged for all interleavings from the initial channel state *)
+Theorem channel_safe_thm : forall ne no l,
+    let c := crun ne no l chan_init in
+    k_werr c = false /\ k_merr c = false /\ k_start c && k_cont c = false /\
+    (k_out c <> [] -> (k_stage c = ETS /\ k_out c = [MTime]) \/ (k_stage c = OSS /\ k_out c = [MOut])) /\
+    ((k_stage c = Idle \/ k_stage c = Susp) -> k_out c = [] /\ wstep ne no c = None).
+Proof.
+  intros ne no l c.
+  assert (I : chan_inv ne no c) by (apply chan_inv_run, chan_inv_init).
+  destruct (inv_no_error ne no c I) as (E1 & E2).
+  repeat split; auto.
+  - apply (inv_events_exclusive ne no c I).
+  - apply (inv_ready_only_if_requested ne no c I).
+  - apply (inv_blocked_when_not_requested ne no c I); auto.
+  - apply (inv_blocked_when_not_requested ne no c I); auto.
+Qed.
+
+Theorem worker_answers_thm : forall ne no l,
+    let c := crun ne no l chan_init in
+    (k_stage c = ETS \/ k_stage c = OSS) -> exists k, k <= 3 /\ k_out (wsteps ne no k c) <> [].
+Proof.
+  intros ne no l c Hs. apply worker_answers; auto. apply chan_inv_run, chan_inv_init.
+Qed.
+
+(* ------------------------------------------------------------------------------------------- *)
+(** ** Concrete instances (witnesses and non-vacuity) *)
+Module Witness.
+  Open Scope Z_scope.
+
+  (** Four handlers; handler 3 has out-state arguments.  First leg runs all four, afterwards the handler that
+      committed is run again; a commit trashes only the committing handler.  Candidate times are pairwise
+      distinct. *)
+  Definition w_has_args (h : H) : bool := Nat.eqb h 3.
+  Definition w_to_run (hs : hist Z) : list H :=
+    match hs with [] => [0; 1; 2; 3]%nat | c :: _ => [c_h c] end.
+  Definition w_offset (h : H) : Z := nth h [1; 5; 9; 7] 0.
+  Definition w_ev_time (h : H) (hs : hist Z) : Z := 10 * Z.of_nat (length hs) + w_offset h.
+  Definition w_out_state (h : H) (he ha : hist Z) : Z :=
+    1000 * Z.of_nat h + 10 * Z.of_nat (length he) + Z.of_nat (length ha).
+  Definition w_trash_of (hs : hist Z) : list H := match hs with c :: _ => [c_h c] | [] => [] end.
+
+  Definition w_sp (n : nat) := sp_run Z w_has_args w_to_run w_ev_time w_out_state w_trash_of n (s_init Z).
+  Definition w_sp_wf (n : nat) := sp_run_wf Z w_has_args w_to_run w_ev_time w_out_state w_trash_of n (s_init Z).
+  Definition w_mp (cores n : nat) (sched : list (list (list H))) :=
+    mp_run Z cores w_has_args w_to_run w_ev_time w_out_state w_trash_of n sched (m_init Z).
+
+  (** With 4 cores: 0 arrives (out-state of 0 started ahead), then 2 (out-state of 2 started ahead), then 1, 3. *)
+  Definition w_sched : list (list (list H)) := [[[0]; [2]; [1; 3]]]%nat.
+
+  Lemma w_wf : w_sp_wf 5 = true.
+  Proof. vm_compute. reflexivity. Qed.
+
+  (** The same oracles with two equal candidate times (handlers 0 and 1 both at time 5). *)
+  Definition t_ev_time (h : H) (hs : hist Z) : Z := 10 * Z.of_nat (length hs) + nth h [5; 5; 9; 7] 0.
+  Definition t_sp (n : nat) := sp_run Z w_has_args w_to_run t_ev_time w_out_state w_trash_of n (s_init Z).
+  Definition t_mp (cores n : nat) (sched : list (list (list H))) :=
+    mp_run Z cores w_has_args w_to_run t_ev_time w_out_state w_trash_of n sched (m_init Z).
+
+  Lemma tie_witness :
+    commits_of_m Z (t_mp 2 1 [[[0]; [1]; [2]; [3]]]%nat) = commits_of_s Z (t_sp 1) /\
+    commits_of_m Z (t_mp 2 1 [[[1]; [0]; [2]; [3]]]%nat) <> commits_of_s Z (t_sp 1) /\
+    commits_of_m Z (t_mp 2 1 [[[1]; [0]; [2]; [3]]]%nat) <> None.
+  Proof. vm_compute. repeat split; intro Hc; discriminate Hc. Qed.
+
+  (** At the first commit (of handler 0) the worker of handler 2 is in stage out_state_started. *)
+  Lemma busy_witness :
+    exists m', w_mp 4 1 w_sched = inl m' /\ m_stg Z m' 2%nat = OSS /\ m_stg Z m' 0%nat = Idle.
+  Proof. eexists. vm_compute. repeat split. Qed.
+End Witness.
